@@ -115,12 +115,16 @@ func verifLemmaRtpHeaderRoundTrip(h RtpHeader, buf []byte) (RtpHeader, error) {
 // C13: STAP-A / AP aggregation packets. Both traversals of the aggregation units end exactly at the end of the
 // payload (the first one has refused every packet whose unit sizes do not add up), never beyond it.
 // C12: a fragmentation unit is refused for a sequence gap only when the next fragment's number is not the previous
-// one plus one modulo 2^16 (a unit that straddles the 65535 -> 0 wrap is reassembled).
+// one plus one modulo 2^16 (a unit that straddles the 65535 -> 0 wrap is reassembled); every step of the walk over the
+// fragments moves over a middle fragment whose number follows its predecessor's, and a unit is delivered only at an
+// end fragment that follows its predecessor (the returned number is that fragment's).
 //@ func (*RtpUnpackerAvcHevc).TryUnpackOne
 //@   props C13 C12
 //@   safety C13
 //@   loop 1 condexit [C13.stap.exact.size] i == len(buf)
 //@   loop 2 condexit [C13.stap.exact.copy] i == len(buf)
+//@   loop 3 step [C12.fu.chain] prev == old(p) && p == old(p).Next && old(p).Packet.Header.Seq == old(prev).Packet.Header.Seq + 1 && old(p).Packet.positionType == PositionTypeFuaMiddle
+//@   returns [C12.fu.accept] defined(p) && defined(prev) && p != nil && prev != nil && result0 ==> p.Packet.Header.Seq == prev.Packet.Header.Seq + 1 && p.Packet.positionType == PositionTypeFuaEnd && result1 == p.Packet.Header.Seq
 //@   returns [C12.fu.contig] defined(p) && defined(prev) && p != nil && prev != nil && !result0 && (p.Packet.positionType == PositionTypeFuaMiddle || p.Packet.positionType == PositionTypeFuaEnd) ==> p.Packet.Header.Seq != prev.Packet.Header.Seq + 1
 //@ end
 
